@@ -104,6 +104,314 @@ def clause1(P, res, hs):
                              witness=[f"{x.loc}: {w} [{x.callee_full or x.kind}]" for x, w in st.bad[:12]])
 
 
+VALUE_CARRIERS = {"core::ptr::read", "core::sync::atomic::Atomic::<bool>::new", "core::sync::atomic::Atomic::<bool>::load",
+                  "core::sync::atomic::Atomic::<bool>::into_inner", "core::sync::atomic::Atomic::<bool>::get_mut",
+                  "core::mem::replace", "core::mem::take"}
+
+
+def origin(body, op, depth=0):
+    """Where does the value of this operand come from? returns a path string or 'const:…'."""
+    p = mir.op_place(op)
+    if p is None:
+        c = mir.op_const(op)
+        return "const:" + str(c.get("s") if c else "?")
+    if depth > 12:
+        return body.path_of_place(p)
+    if not p[1]:
+        e = body.single_def(p[0])
+        if e is not None and e.kind == "call" and (e.callee in VALUE_CARRIERS or e.callee in mir.TRANSPARENT_METHODS) and e.args:
+            return origin(body, e.args[0], depth + 1)
+        if e is not None and e.kind == "assign":
+            r = e.data["r"]
+            if r["k"] == "use":
+                return origin(body, r["o"], depth + 1)
+            if r["k"] in ("ref", "rawptr"):
+                return origin(body, {"c": r["p"]}, depth + 1)
+            if r["k"] == "cast":
+                return origin(body, r["o"], depth + 1)
+    else:
+        # projection through a local: resolve the base, re-append
+        base = origin(body, {"c": [p[0], []]}, depth + 1)
+        if not base.startswith("const:"):
+            tail = "".join(x if x.startswith(".") and not x.startswith(".^") else ("." + x[2:] if x.startswith(".^") else "") for x in p[1] if x != "*")
+            s = base + tail
+            return s[5:] if s.startswith("$env.") else s
+    return body.path_of_place(p)
+
+
+def find_handle_aggregates(P, hs, body, depth=0, seen=None):
+    """Aggregates of a handle type constructed in body or in helper constructors it calls
+    (from_shared and the like): [(body, event, rvalue)]"""
+    seen = seen if seen is not None else set()
+    if body.id in seen or depth > 3:
+        return []
+    seen.add(body.id)
+    out = []
+    for e in body.events:
+        if e.kind == "assign" and e.data["r"]["k"] == "agg" and e.data["r"]["adt"] in hs:
+            out.append((body, e, e.data["r"]))
+        elif e.kind == "call":
+            tgt = P.body(e.callee_resolved)
+            if tgt is not None and tgt.name in ("from_shared", "new", "from_parts", "from_raw_parts"):
+                out.extend(find_handle_aggregates(P, hs, tgt, depth + 1, seen))
+    return out
+
+
+COUNTER_INC = {"fetch_add"}
+COUNTER_DEC = {"fetch_sub"}
+
+
+def counter_ops(P, body, depth=0, seen=None, via=()):
+    """inc/dec style registration events reachable from body through fibre callees (depth<=4):
+    [(kind, field, event, body)] kind in inc|dec|list"""
+    seen = seen if seen is not None else set()
+    if body is None or body.id in seen or depth > 4:
+        return []
+    seen.add(body.id)
+    out = []
+    for e in body.events:
+        if e.kind == "call":
+            if e.is_atomic and e.method in COUNTER_INC | COUNTER_DEC and e.args:
+                fld = body.path_of_operand(e.args[0]).rsplit(".", 1)[-1]
+                out.append(("inc" if e.method in COUNTER_INC else "dec", fld, e, body))
+            elif e.method == "modify" and e.callee.startswith("fibre::internal::left_right"):
+                fld = body.path_of_operand(e.args[0]).rsplit(".", 1)[-1] if e.args else "?"
+                out.append(("list", fld, e, body))
+            tgt = P.body(e.callee_resolved)
+            if tgt is not None and tgt.id.startswith("fibre::"):
+                out.extend(counter_ops(P, common.effective_body(P, tgt), depth + 1, seen))
+        elif e.kind == "assign":
+            r = e.data["r"]
+            # guard.sender_count += 1  ==>  tmp = AddWithOverflow(copy place, 1); place = move tmp.0
+            if r["k"] == "bin" and r["op"] in ("AddWithOverflow", "SubWithOverflow", "Add", "Sub", "AddUnchecked", "SubUnchecked"):
+                pa = mir.op_place(r["a"])
+                cb = body.const_of_operand(r["b"])
+                if pa is not None and pa[1] and cb is not None and cb.get("v") == 1:
+                    fld = body.path_of_place(pa).rsplit(".", 1)[-1]
+                    if any(k in fld for k in ("count", "senders", "receivers", "handles")):
+                        out.append(("inc" if r["op"].startswith("Add") else "dec", fld, e, body))
+    return out
+
+
+def result_is_tested(body, ev, field):
+    """Is the outcome of decrement `ev` (or a re-read of `field`) compared in a branch of `body`?"""
+    for blk in range(len(body.blocks)):
+        if body.is_cleanup(blk):
+            continue
+        s = body.switch_source(blk)
+        if not s:
+            continue
+        if s["kind"] == "cmp":
+            for side in (s["a"], s["b"]):
+                d = body.def_event_of_operand(side)
+                if d is ev:
+                    return True
+                pth = origin(body, side)
+                if pth.endswith("." + field) or pth == field:
+                    return True
+                if d is not None and d.kind == "call" and d.is_atomic and d.args and body.path_of_operand(d.args[0]).endswith(field):
+                    return True
+        elif s["kind"] == "call" and s["event"] is ev:
+            return True
+    return False
+
+
+def clause2(P, res, hs):
+    rid = "C04-2"
+    res.rule(rid, "count handles, act on the last: every handle type that is Clone registers the clone in shared state "
+                  "(counter increment or cursor-list insertion) and its Drop/close path performs the matching "
+                  "deregistration whose outcome is tested by a branch before the side is disconnected")
+    for h in sorted(hs.values(), key=lambda h: h.path):
+        if not h.is_clone:
+            continue
+        cb = common.trait_method_body(P, h.path, "core::clone::Clone", "clone")
+        db = common.drop_body(P, h.path)
+        key = h.path
+        where = f"{cb.file}:{cb.line}" if cb else ""
+        if cb is None or db is None:
+            res.unclassified(rid, key, "Clone handle without clone/drop body in the fact base", where=where)
+            continue
+        incs = [o for o in counter_ops(P, cb) if o[0] in ("inc", "list")]
+        decs = [o for o in counter_ops(P, db) if o[0] in ("dec", "list")]
+        if not incs:
+            res.violated(rid, key, "Clone creates a second handle without registering it in shared state (no counter increment, "
+                         "no cursor registration): the close path cannot tell the last handle from any other, so closing or dropping "
+                         "one clone acts for all", where=where,
+                         witness=[f"clone body {cb.id} and its fibre callees contain no fetch_add / `count += 1` / list insertion"])
+            continue
+        ok = False
+        wit = []
+        for kind, fld, ev, b in incs:
+            for k2, f2, e2, b2 in decs:
+                if f2 != fld:
+                    continue
+                if kind == "list" and k2 == "list":
+                    ok = True
+                    wit.append(f"cursor list `{fld}` modified in clone ({ev.loc}) and in close path ({e2.loc})")
+                elif kind == "inc" and k2 == "dec":
+                    if result_is_tested(b2, e2, f2):
+                        ok = True
+                        wit.append(f"`{fld}` incremented at {ev.loc}; decremented at {e2.loc} in {b2.id} and the outcome is branched on")
+                    else:
+                        wit.append(f"`{fld}` decremented at {e2.loc} in {b2.id} but the outcome is never tested")
+        if ok:
+            res.holds(rid, key, wit[0], where=where, witness=wit, obligations=2)
+        else:
+            res.violated(rid, key, "clone registers the handle but the Drop/close path has no tested matching deregistration: "
+                         + "; ".join(wit or [f"incremented {sorted(set(i[1] for i in incs))}, decremented {sorted(set(d[1] for d in decs))}"]),
+                         where=where, witness=wit)
+
+
+def clause3(P, res, hs):
+    rid = "C04-3"
+    res.rule(rid, "conversions keep the closed state: in every to_sync/to_async the `closed` field of the handle that is "
+                  "constructed is data-derived from `self.closed` (not a fresh `false`)")
+    for h in sorted(hs.values(), key=lambda h: h.path):
+        for m in P.methods_of(h.path, inherent_only=True):
+            if m.name not in ("to_sync", "to_async"):
+                continue
+            key = m.id
+            where = f"{m.file}:{m.line}"
+            aggs = find_handle_aggregates(P, hs, m)
+            if not aggs:
+                res.unclassified(rid, key, "conversion constructs no handle aggregate that the rule can see", where=where)
+                continue
+            bad = []
+            good = []
+            for b, e, r in aggs:
+                fields = r["fields"]
+                if "closed" not in fields:
+                    continue
+                op = r["ops"][fields.index("closed")]
+                o = origin(b, op)
+                if b is m and o == "self.closed":
+                    good.append(f"{e.loc}: closed <- {o}")
+                else:
+                    bad.append(f"{e.loc}: {r['adt'].rsplit('::',1)[-1]}.closed <- {o}" + ("" if b is m else f" (in helper {b.id})"))
+            if bad:
+                res.violated(rid, key, "conversion re-opens a closed handle: the new handle's `closed` does not come from `self.closed` — "
+                             + bad[0] + "; the converted handle accepts operations again and its Drop decrements the handle count a second time",
+                             where=where, witness=bad)
+            elif good:
+                res.holds(rid, key, good[0], where=where, witness=good)
+            else:
+                res.unclassified(rid, key, "handle aggregate without a `closed` field", where=where)
+
+
+def closed_test_edges(body, hpath="self"):
+    """Edges on which this call won the right to close (flag observed open and set):
+    swap(true)==false, compare_exchange(false,true) Ok / is_ok()==true, plain bool read false."""
+    edges, gates = [], []
+    cp = hpath + ".closed"
+    for blk in range(len(body.blocks)):
+        if body.is_cleanup(blk):
+            continue
+        s = body.switch_source(blk)
+        if not s:
+            continue
+        lab = None
+        if s["kind"] == "call":
+            e = s["event"]
+            a0 = body.path_of_operand(e.args[0]) if e.args else ""
+            if e.is_atomic and e.method in ("swap", "load") and a0 == cp:
+                lab = "true" if s.get("neg") else "false"
+            elif e.method in ("is_ok", "is_err") and e.args:
+                d = body.producer_call(e.args[0])
+                if d is not None and d.kind == "call" and d.is_atomic and d.method.startswith("compare_exchange") and d.args and origin(body, d.args[0]) == cp:
+                    want_true = (e.method == "is_ok")
+                    if s.get("neg"):
+                        want_true = not want_true
+                    lab = "true" if want_true else "false"
+        elif s["kind"] == "discr":
+            d = s.get("def")
+            if d is not None and d.kind == "call" and d.is_atomic and d.method.startswith("compare_exchange") and d.args and origin(body, d.args[0]) == cp:
+                lab = "Ok"
+        elif s["kind"] == "place" and s["path"] == cp:
+            lab = "true" if s.get("neg") else "false"
+        if lab:
+            edges.extend(body.edges_by_label(blk).get(lab, []))
+            gates.append((blk, lab))
+    return edges, gates
+
+
+def registration_cleanup_region(body, hpath="self"):
+    """Positions executed only when `<hpath>.is_registered` was read true: withdrawing the handle's own
+    stream-waiter registration is not a close action."""
+    edges = []
+    for blk in range(len(body.blocks)):
+        if body.is_cleanup(blk):
+            continue
+        s = body.switch_source(blk)
+        if s and s["kind"] == "place" and s["path"] == hpath + ".is_registered":
+            edges.extend(body.edges_by_label(blk).get("false" if s.get("neg") else "true", []))
+    if not edges:
+        return set()
+    all_reach = body.entry_reach_set()
+    return all_reach - body.entry_reach_set(removed_edges=frozenset(edges))
+
+
+def close_uses(P, body, hpath="self"):
+    out = []
+    exempt = registration_cleanup_region(body, hpath)
+    for e in body.calls():
+        if e.callee in mir.TRANSPARENT_METHODS:
+            continue
+        if e.pos in exempt:
+            continue
+        if common.CLEANUP_METHODS.match(e.method or "") and e.callee.startswith("fibre::"):
+            continue
+        paths = [body.path_of_operand(a) for a in e.args]
+        if any(p == hpath for p in paths):
+            tgt = P.body(e.callee_resolved)
+            if tgt is not None and tgt.name not in ("close",):
+                out.append((e, f"calls {tgt.id}"))
+            continue
+        if any(p.startswith(hpath + ".") and not p.startswith(hpath + ".closed") for p in paths):
+            out.append((e, f"uses {[p for p in paths if p.startswith(hpath + '.')][0]}"))
+    return out
+
+
+def clause4(P, res, hs):
+    rid = "C04-4"
+    res.rule(rid, "Drop closes once: every handle type has Drop; in Drop::drop and in close(), every action on shared "
+                  "state is on the edge where the handle's own `closed` flag was observed open and set "
+                  "(swap/compare_exchange/read), so a second close or a drop after close does nothing")
+    for h in sorted(hs.values(), key=lambda h: h.path):
+        db = common.drop_body(P, h.path)
+        if db is None:
+            res.violated(rid, h.path + "::drop", "handle type has no Drop impl: dropping the last handle never disconnects the channel")
+            continue
+        bodies = [("drop", db)]
+        for m in P.methods_of(h.path, inherent_only=True):
+            if m.name == "close":
+                bodies.append(("close", m))
+        for nm, b in bodies:
+            key = b.id
+            where = f"{b.file}:{b.line}"
+            uses = close_uses(P, b)
+            edges, gates = closed_test_edges(b)
+            # delegating to self.close() is a gate by itself (close is its own instance)
+            delegates = [e for e in b.calls() if e.method == "close" and e.args and b.path_of_operand(e.args[0]) == "self"]
+            if nm == "drop" and delegates and not uses:
+                res.holds(rid, key, "Drop delegates to close()", where=where, witness=[f"{delegates[0].loc}: self.close()"])
+                continue
+            if not uses:
+                res.violated(rid, key, f"{nm} performs no close action on shared state", where=where)
+                continue
+            if not edges:
+                res.violated(rid, key, f"{nm} acts on shared state without testing-and-setting the handle's `closed` flag: {uses[0][1]} at {uses[0][0].loc}",
+                             where=where, witness=[f"{e.loc}: {w}" for e, w in uses])
+                continue
+            reach = b.entry_reach_set(removed_edges=frozenset(edges))
+            bad = [(e, w) for e, w in uses if e.pos in reach]
+            if bad:
+                res.violated(rid, key, f"{nm}: close action reachable without having won the closed flag: {bad[0][1]} at {bad[0][0].loc}",
+                             where=where, witness=[f"{e.loc}: {w}" for e, w in bad])
+            else:
+                res.holds(rid, key, f"{len(uses)} close action(s) behind {len(gates)} flag test(s)", where=where, obligations=len(uses),
+                          witness=[f"bb{g[0]} edge {g[1]}" for g in gates] + [f"{e.loc}: {w}" for e, w in uses[:4]])
+
+
 def run(P, ctx):
     res = Result("C04")
     res.extra["explanation"] = ("Closed-gate, last-handle, conversion, drop-once and drain-before-Disconnected clauses "
@@ -111,4 +419,7 @@ def run(P, ctx):
     hs = common.handles(P)
     res.extra["handles"] = sorted(hs)
     clause1(P, res, hs)
+    clause2(P, res, hs)
+    clause3(P, res, hs)
+    clause4(P, res, hs)
     return res
